@@ -256,14 +256,69 @@ harnesses! {
         probe::set_strict(true);
         let (ok, _, n) = call_line::<_, _, 14, 3>(nd, &mut r, &mut st, &mut tau);
         check!(ok, "C03.ok[base]");
-        let pending = ramp && newr != 1.0;
+        let pending = ramp && newr < 1.0;
+        // quick tier: the recorded region (F6) has its own concrete witness harness below
+        nd.assume(!pending);
         check!(!probe::offline() || pending, "C06.window_on_supplied_data[base]");
-        check!(!probe::offline() || !pending, "C06.window_on_supplied_data[ramp_pending_sinc]");
+        check!(!probe::offline() || !pending, "C06.window_on_supplied_data[ramp_down_sinc]");
         check!(!probe::bad_window() && !probe::bad_subindex(), "C03.kernel_window[base]");
-        warp_checks!(st, tau, n, 3, 1.0, t1, ramp, 4, "base", pending, "ramp_pending_sinc");
+        warp_checks!(st, tau, n, 3, 1.0, t1, ramp, 4, "base", pending, "ramp_down_sinc");
+        cover!(!pending, "base region explored");
+        cover!(ok && ramp, "ramped change explored");
+        forget(r);
+    }
+    #[kani::unwind(8)]
+    fn c06_sfo_change_grid_all(nd) {
+        probe::reset_flags();
+        let mut r = SincFixedOut::<f64>::new_with_interpolator(1.0, 2.0, SincInterpolationType::Linear, probe::boxed64(8, 2), 3, 1).unwrap();
+        let mut st = new_stream!();
+        let mut tau = [0.0f64; 3];
+        let (ok, _, n) = call_line::<_, _, 14, 3>(nd, &mut r, &mut st, &mut tau);
+        check!(ok && n == 3, "C03.ok[base]");
+        let (ok, _, n) = call_line::<_, _, 14, 3>(nd, &mut r, &mut st, &mut tau);
+        check!(ok && n == 3, "C03.ok[base]");
+        st.last = tau[2];
+        st.have_last = true;
+        st.produced = 6;
+        let k = nd.u8();
+        let newr = (k as f64) / 32.0;
+        let ramp = nd.bool();
+        nd.assume(r.set_resample_ratio(newr, ramp).is_ok());
+        let t1 = 1.0 / newr;
+        probe::set_strict(true);
+        let (ok, _, n) = call_line::<_, _, 14, 3>(nd, &mut r, &mut st, &mut tau);
+        check!(ok, "C03.ok[base]");
+        let pending = ramp && newr < 1.0;
+        check!(!probe::offline() || pending, "C06.window_on_supplied_data[base]");
+        check!(!probe::offline() || !pending, "C06.window_on_supplied_data[ramp_down_sinc]");
+        check!(!probe::bad_window() && !probe::bad_subindex(), "C03.kernel_window[base]");
+        warp_checks!(st, tau, n, 3, 1.0, t1, ramp, 4, "base", pending, "ramp_down_sinc");
         cover!(pending, "ramp_pending region explored");
         cover!(!pending, "base region explored");
         cover!(ok && ramp, "ramped change explored");
+        forget(r);
+    }
+    // recorded finding F6, concrete witness: ramp 1.0 -> 0.5 on SincFixedOut chunk 3
+    #[kani::unwind(8)]
+    fn c06_sfo_ramp_down_kf(nd) {
+        probe::reset_flags();
+        let mut r = SincFixedOut::<f64>::new_with_interpolator(1.0, 2.0, SincInterpolationType::Linear, probe::boxed64(8, 2), 3, 1).unwrap();
+        let mut st = new_stream!();
+        let mut tau = [0.0f64; 3];
+        let (ok, _, n) = call_line::<_, _, 14, 3>(nd, &mut r, &mut st, &mut tau);
+        check!(ok && n == 3, "C03.ok[base]");
+        let (ok, _, n) = call_line::<_, _, 14, 3>(nd, &mut r, &mut st, &mut tau);
+        check!(ok && n == 3, "C03.ok[base]");
+        st.last = tau[2];
+        st.have_last = true;
+        st.produced = 6;
+        check!(r.set_resample_ratio(0.5, true).is_ok(), "C03.ok[base]");
+        probe::set_strict(true);
+        let (ok, _, n) = call_line::<_, _, 14, 3>(nd, &mut r, &mut st, &mut tau);
+        check!(ok, "C03.ok[base]");
+        check!(!probe::offline(), "C06.window_on_supplied_data[ramp_down_sinc]");
+        check!(!probe::bad_window() && !probe::bad_subindex(), "C03.kernel_window[base]");
+        warp_checks!(st, tau, n, 3, 1.0, 2.0, true, 4, "base", true, "ramp_down_sinc");
         forget(r);
     }
 
@@ -316,12 +371,12 @@ harnesses! {
         check!(ok, "C03.ok[base]");
         // recorded finding F6: during a ramp the fixed-output types size their input from the mean
         // ratio while the position advances by the mean reciprocal (region `ramp_pending`)
-        let pending = ramp && newr != 1.0;
+        let pending = ramp && newr < 1.0;
         check!(!probe::offline() || pending, "C06.window_on_supplied_data[base]");
-        check!(!probe::offline() || !pending, "C06.window_on_supplied_data[ramp_pending_sinc]");
+        check!(!probe::offline() || !pending, "C06.window_on_supplied_data[ramp_down_sinc]");
         check!(!probe::bad_window() && !probe::bad_subindex(), "C03.kernel_window[base]");
         // the probe's value stands for the window centre: the window reaches len/2 beyond it
-        warp_checks!(st, tau, n, 3, 1.0, t1, ramp, 4, "base", pending, "ramp_pending_sinc");
+        warp_checks!(st, tau, n, 3, 1.0, t1, ramp, 4, "base", pending, "ramp_down_sinc");
         cover!(pending, "ramp_pending region explored");
         cover!(!pending, "base region explored");
         cover!(ok && ramp, "ramped change explored");
